@@ -11,7 +11,7 @@ import sys
 import tempfile
 
 LEVEL = "proof"
-EXTRA_PROPS = ["QuantemModel.Props.C19Ext"]   # growth 6: refinement of whole histories to a simple map spec
+EXTRA_PROPS = ["QuantemModel.Props.C19Ext", "QuantemModel.Props.C19Ext2"]   # growth 6: refinement of whole histories to a simple map spec
 MANIFEST_ENTRY = {
     "category": "proof",
     "text": "Lean 4 theorems over an executable model of config.py (assoc-list dicts, canonical '-'/'_' names, _assign with undo record, update/merge/refresh, collect/collect_yaml/_load_config_file, get with default/override_with, validate_device as (device string, device id) in EVERY device environment): get-after-set under the same and under the other '-'/'_' spelling (`get_assign_twin`), sibling preservation (frame), with-block exit restores the exact previous configuration for every assignment list (also nested inside other open blocks, `xenter_xexit_noop`), refresh = merge of defaults and idempotent, refresh(path) = merge of defaults followed by the user's files (`refreshFrom_spec`, `refreshFrom_missing`); device clause for all CUDA/MPS availabilities, device counts and current devices: whatever is accepted is cpu, or mps with MPS available, or cuda:n with CUDA available and n below the device count (`device_accepted_available`, converse `device_accepted_reachable`), accepted strings are exactly torch's cuda spelling or gpu/mps/cpu ignoring case (`device_string_forms`), a rejected request through set / with / update_defaults raises and leaves configuration AND accumulated defaults unchanged (`rejected_noop`), so rejected requests can be erased from any history (`rejected_history_erase`); and over WHOLE HISTORIES of set / with / update_defaults / refresh calls, raising or not (`hstep`/`hrun`, the transition function the driver itself runs): last writer wins (`lww_history`), also when the path is read with every component in its other spelling (`lww_history_twin`, from the `WellKeyed` invariant preserved by every operation), with-blocks are no-ops, the defaults list only grows, refresh after any history = merge of the accumulated defaults. The model is tied to the code on every run by an order-sensitive differential run of random op sequences (incl. with-blocks with bodies and raising bodies, refresh(path=dir of yaml/json files), set(config=other), falsy get defaults/overrides, degenerate key spellings) in the real and in six simulated device environments (torch availability answers stubbed from the harness process), direct streams for validate_device (tuple), update (all three priorities) and merge, a replay of the import-time initialisation from quantem.yaml, pinned public signatures, and a last-writer-wins reference map evaluated on the real module as the failing-input search.",
